@@ -1,0 +1,14 @@
+//go:build verif
+
+package starlark
+
+// Contracts for the deductive verification in /verif (comment-only file; the
+// build tag keeps it out of every ordinary build).
+
+//@ specfn rlen(a, b, s int) int = ite(s > 0, ite(b > a, div(b - a - 1, s) + 1, 0), ite(a > b, div(a - b - 1, -s) + 1, 0))
+
+//@ func rangeLen
+//@   prop C10
+//@   requires step != 0
+//@   ensures exact: result == rlen(start, stop, step)
+//@   nopanic
